@@ -15,7 +15,8 @@ Import ListNotations.
 Local Open Scope Z_scope.
 
 Definition CB : busops cfg :=
-  mkBus cfg (fun c m => let '(c', tail) := cspi c m in (c', 0%N :: tail)) cset_ce.
+  mkBus cfg (fun c m => let '(c', tail) := cspi c m in (c', 0%N :: tail)) cset_ce
+        (fun c => (c, 0%N)) (fun c _ => c).
 
 Definition upd_in0 (v : N) (d : drv) : drv :=
   mkDrv v (d_config d) (d_rf_setup d) (d_open_pipes d) (d_dyn_pl d) (d_aa d) (d_features d)
@@ -128,6 +129,26 @@ Section Sim.
     - rewrite w_ce_cview_me by exact Hme. rewrite <- Hc. reflexivity.
     - intros j Hj. apply w_ce_cview_other. congruence.
     - apply w_ce_length.
+  Qed.
+
+  (* time: no effect on any configuration; the values read differ between the two runs *)
+  Lemma sim_sleep a b : sim (sleep (WB me) a) (sleep CB b).
+  Proof.
+    intros d d' w c Hd [Hme Hc]. unfold sleep. cbn [b_sleep WB CB].
+    split; [reflexivity|]. split; [exact Hd|]. split; [split; [exact Hme|exact Hc]|(split; [intros; reflexivity|reflexivity])].
+  Qed.
+
+  Lemma simR_now : simR (fun _ _ => True) (now (WB me)) (now CB).
+  Proof.
+    intros d d' w c Hd [Hme Hc]. unfold now. cbn [b_now WB CB]. unfold w_now.
+    split; [exact I|]. split; [exact Hd|]. split; [split; [exact Hme|exact Hc]|(split; [intros; reflexivity|reflexivity])].
+  Qed.
+
+  Lemma sim_listen_delay s s' : sim (listen_delay (WB me) s) (listen_delay CB s').
+  Proof.
+    intros d d' w c Hd [Hme Hc]. unfold listen_delay, bind, now, sleep, ret. cbn [b_now b_sleep WB CB]. unfold w_now.
+    destruct (_ <? _)%N, (_ <? _)%N;
+      (split; [reflexivity|]; split; [exact Hd|]; split; [split; [exact Hme|exact Hc]|(split; [intros; reflexivity|reflexivity])]).
   Qed.
 
   (* one transfer of a configuration command: replies agree except for the STATUS byte *)
